@@ -9,6 +9,12 @@
 //        is (no main component: `ParseResult::Library`) and once with a main component
 //        appended (`ParseResult::Program`): `<mode>` is `library`/`program`, followed by the
 //        definitions in the POST format (`=` when they are literally the POST field)
+//   IO   <(in ..)(out ..) of EVERY parsed template, kept or rejected, as TemplateData::new recorded them>
+//   REPCAT / LIBREPCAT / PROGREPCAT  <name:category of every report of the corresponding list>
+// Fourth audit: the text may hold several files (`\n//@@FILE <name>\n` starts the next one; the first is the
+// main file and `include`s the others): each is parsed under its own file id for the hook route, and all are
+// written to a directory for the parse_files routes.  One program in five gets an ANONYMOUS main component
+// (`component main = A0()();`, mode `program-anon`) instead of `component main = A0();`.
 // separated by tabs.  Input line: the source with `\n` and `\\` escaped.
 // The printer matches every constructor and every field explicitly (no `..` on
 // children), so that a sugar node anywhere in a tree shows up in the text.
@@ -359,27 +365,60 @@ fn show_reports(reports: &ReportCollection) -> String {
 // The whole front end on a file holding `src`: `parser::parse_files` itself (file stack,
 // parse_file, ProgramArchive::new / TemplateLibrary::new, the desugaring step and the
 // assignment of its results), not the hook.
-fn front_end(src: &str, tag: &str) -> (String, String) {
-    let path = std::env::temp_dir().join(format!("c18-{}-{}.circom", std::process::id(), tag));
-    if std::fs::write(&path, src).is_err() {
-        return ("io-error".to_string(), "-".to_string());
+fn front_end(files: &[(String, String)], tag: &str) -> (String, String, String) {
+    let dir = std::env::temp_dir().join(format!("c18-{}-{}", std::process::id(), tag));
+    let _ = std::fs::remove_dir_all(&dir);
+    if std::fs::create_dir_all(&dir).is_err() {
+        return ("io-error".to_string(), "-".to_string(), "-".to_string());
     }
-    let files = vec![path.clone()];
+    for (name, text) in files {
+        if std::fs::write(dir.join(name), text).is_err() {
+            return ("io-error".to_string(), "-".to_string(), "-".to_string());
+        }
+    }
+    let paths = vec![dir.join(&files[0].0)];
     let result = guarded(|| {
-        parser::parse_files(&files, &[], &program_analysis::config::COMPILER_VERSION)
+        parser::parse_files(&paths, &[], &program_analysis::config::COMPILER_VERSION)
     });
-    let _ = std::fs::remove_file(&path);
+    let _ = std::fs::remove_dir_all(&dir);
     match result {
-        None => ("panic".to_string(), "-".to_string()),
+        None => ("panic".to_string(), "-".to_string(), "-".to_string()),
         Some(parser::ParseResult::Program(archive, reports)) => (
             format!("program {}", show_defs(&archive.templates, &archive.functions)),
             show_reports(&reports),
+            show_categories(&reports),
         ),
         Some(parser::ParseResult::Library(library, reports)) => (
             format!("library {}", show_defs(&library.templates, &library.functions)),
             show_reports(&reports),
+            show_categories(&reports),
         ),
     }
+}
+
+fn show_categories(reports: &ReportCollection) -> String {
+    let mut v: Vec<String> = reports.iter().map(|r| format!("{}:{}", r.name(), r.category())).collect();
+    v.sort();
+    if v.is_empty() {
+        "-".to_string()
+    } else {
+        v.join(",")
+    }
+}
+
+const FILE_MARK: &str = "\n//@@FILE ";
+
+// (file name, text) of every file of the input; the first one is the main file
+fn split_files(src: &str) -> Vec<(String, String)> {
+    let mut parts = src.split(FILE_MARK);
+    let mut out = vec![("main.circom".to_string(), format!("{}\n", parts.next().unwrap_or("")))];
+    for p in parts {
+        match p.split_once('\n') {
+            Some((name, text)) => out.push((name.trim().to_string(), text.to_string())),
+            None => out.push((p.trim().to_string(), String::new())),
+        }
+    }
+    out
 }
 
 fn unescape(line: &str) -> String {
@@ -405,46 +444,71 @@ fn unescape(line: &str) -> String {
 
 fn run(line: &str) -> String {
     let src = unescape(line);
+    let files = split_files(&src);
     let mut file_library = FileLibrary::new();
-    let file_id = file_library.add_file("memory.circom".to_string(), src.clone(), true);
-    let ast = match guarded(|| parse_source(&src, file_id)) {
-        None => return "PARSE\tpanic".to_string(),
-        Some(Err(r)) => return format!("PARSE\terror {}", report_line(&r)),
-        Some(Ok(ast)) => ast,
-    };
     // Build the definition maps the way TemplateLibrary::new / ProgramArchive do.
     let mut templates: HashMap<String, TemplateData> = HashMap::new();
     let mut functions: HashMap<String, FunctionData> = HashMap::new();
     let mut order: Vec<(bool, String)> = Vec::new();
     let mut elem_id = 0;
-    for definition in ast.definitions {
-        match definition {
-            Definition::Function { name, args, arg_location, body, .. } => {
-                order.push((false, name.clone()));
-                functions.insert(
-                    name.clone(),
-                    FunctionData::new(name, file_id, body, args.len(), args, arg_location, &mut elem_id),
-                );
-            }
-            Definition::Template { name, args, arg_location, body, parallel, is_custom_gate, .. } => {
-                order.push((true, name.clone()));
-                templates.insert(
-                    name.clone(),
-                    TemplateData::new(
-                        name,
-                        file_id,
-                        body,
-                        args.len(),
-                        args,
-                        arg_location,
-                        &mut elem_id,
-                        parallel,
-                        is_custom_gate,
-                    ),
-                );
+    for (k, (name, text)) in files.iter().enumerate() {
+        let file_id = file_library.add_file(name.clone(), text.clone(), k == 0);
+        let ast = match guarded(|| parse_source(text, file_id)) {
+            None => return "PARSE\tpanic".to_string(),
+            Some(Err(r)) => return format!("PARSE\terror {}", report_line(&r)),
+            Some(Ok(ast)) => ast,
+        };
+        for definition in ast.definitions {
+            match definition {
+                Definition::Function { name, args, arg_location, body, .. } => {
+                    if functions.contains_key(&name) || templates.contains_key(&name) {
+                        continue;
+                    }
+                    order.push((false, name.clone()));
+                    functions.insert(
+                        name.clone(),
+                        FunctionData::new(name, file_id, body, args.len(), args, arg_location, &mut elem_id),
+                    );
+                }
+                Definition::Template { name, args, arg_location, body, parallel, is_custom_gate, .. } => {
+                    if functions.contains_key(&name) || templates.contains_key(&name) {
+                        continue;
+                    }
+                    order.push((true, name.clone()));
+                    templates.insert(
+                        name.clone(),
+                        TemplateData::new(
+                            name,
+                            file_id,
+                            body,
+                            args.len(),
+                            args,
+                            arg_location,
+                            &mut elem_id,
+                            parallel,
+                            is_custom_gate,
+                        ),
+                    );
+                }
             }
         }
     }
+    let mut io = String::from("(io");
+    for (is_t, name) in &order {
+        if *is_t {
+            let t = &templates[name];
+            write!(io, " (T {} (in", name).unwrap();
+            for (n, d) in t.get_declaration_inputs() {
+                write!(io, " {}:{}", n, d).unwrap();
+            }
+            io.push_str(") (out");
+            for (n, d) in t.get_declaration_outputs() {
+                write!(io, " {}:{}", n, d).unwrap();
+            }
+            io.push_str("))");
+        }
+    }
+    io.push(')');
     let mut pre = String::from("(prog");
     for (is_t, name) in &order {
         pre.push(' ');
@@ -460,7 +524,7 @@ fn run(line: &str) -> String {
     let result =
         guarded(|| remove_syntactic_sugar(&templates, &functions, &file_library, &mut reports));
     let (new_templates, new_functions) = match result {
-        None => return format!("PRE\t{}\tPOST\tpanic\tREP\t-\tPIPE\t-", pre),
+        None => return format!("PRE\t{}\tPOST\tpanic\tREP\t-\tPIPE\t-\tIO\t{}", pre, io),
         Some(r) => r,
     };
     let mut tnames: Vec<&String> = new_templates.keys().collect();
@@ -480,6 +544,7 @@ fn run(line: &str) -> String {
     let mut reps: Vec<String> = reports.iter().map(report_line).collect();
     reps.sort();
     let reps = format!("(reports{}{})", if reps.is_empty() { "" } else { " " }, reps.join(" "));
+    let repcat = show_categories(&reports);
 
     // Downstream: everything handed on goes through CFG lifting and SSA.
     let mut pipe = Vec::new();
@@ -518,17 +583,23 @@ fn run(line: &str) -> String {
             _ => x,
         }
     };
-    let (lib, librep) = front_end(&src, "l");
+    let (lib, librep, libcat) = front_end(&files, "l");
     let lib = same(lib);
-    let with_main = if src.contains("component main") {
-        src.clone()
-    } else {
-        format!("{}\ncomponent main = A0();\n", src)
-    };
-    let (prog, progrep) = front_end(&with_main, "p");
+    let mut with_main = files.clone();
+    let mut anon_main = false;
+    if !src.contains("component main") {
+        anon_main = src.matches(';').count() % 5 == 0;
+        with_main[0].1.push_str(if anon_main {
+            "\ncomponent main = A0()();\n"
+        } else {
+            "\ncomponent main = A0();\n"
+        });
+    }
+    let (prog, progrep, progcat) = front_end(&with_main, "p");
     let prog = same(prog);
+    let prog = if anon_main { prog.replacen("program ", "program-anon ", 1) } else { prog };
     format!(
-        "PRE\t{}\tPOST\t{}\tREP\t{}\tPIPE\t{}\tLIB\t{}\tLIBREP\t{}\tPROG\t{}\tPROGREP\t{}",
+        "PRE\t{}\tPOST\t{}\tREP\t{}\tPIPE\t{}\tLIB\t{}\tLIBREP\t{}\tPROG\t{}\tPROGREP\t{}\tIO\t{}\tREPCAT\t{}\tLIBREPCAT\t{}\tPROGREPCAT\t{}",
         pre,
         post,
         reps,
@@ -536,7 +607,11 @@ fn run(line: &str) -> String {
         lib,
         librep,
         prog,
-        progrep
+        progrep,
+        io,
+        repcat,
+        libcat,
+        progcat
     )
 }
 
